@@ -31,6 +31,11 @@ def mk_y(tok, origin=0):
             idx[1] = idx[0]
         return pd.Series(vals, index=pd.Index(idx))
     if k == "unsorted":
+        form = origin % 3 if isinstance(origin, int) else 0
+        if form == 1 and n >= 2:      # a descending RangeIndex is unsorted too
+            return pd.Series(vals, index=pd.RangeIndex(origin + n - 1, origin - 1, -1))
+        if form == 2 and n >= 2:      # fully descending integer index
+            return pd.Series(vals, index=pd.Index(idx[::-1].copy()))
         idx = idx.copy()
         idx[0], idx[-1] = idx[-1], idx[0]
         return pd.Series(vals, index=pd.Index(idx))
@@ -146,7 +151,8 @@ def ep_naive_predict(c):
 def ep_naive_update(c):
     from sktime.forecasting.naive import NaiveForecaster
     f = NaiveForecaster(strategy="mean")
-    f.fit(mk_y("ok:%d" % c["n"], 0), fh=[1])
+    y1 = mk_y("ok:%d" % c["n"], 0)
+    f.fit(y1, mk_X("ok", y1) if c["X"] != "none" else None, fh=[1])
     y2 = mk_y(c["y"], c["n"])
 
     def run():
@@ -204,7 +210,7 @@ def ep_evaluate(c):
     from sktime.forecasting.model_selection import SlidingWindowSplitter
     from sktime.performance_metrics.forecasting import MeanAbsolutePercentageError
     f = NaiveForecaster()
-    y = mk_y(c["y"], 0)
+    y = mk_y(c["y"], c.get("origin", 0))
     cv = {"ok": SlidingWindowSplitter(fh=[1, 2], window_length=3), "nosww": SlidingWindowSplitter(fh=[1], window_length=3, start_with_window=False),
           "notcv": "kfold", "none": None}[c["cv"]]
     scoring = {"none": None, "ok": MeanAbsolutePercentageError(), "notcallable": 3}[c["scoring"]]
@@ -218,7 +224,7 @@ def ep_gridsearch(c):
     from sktime.forecasting.naive import NaiveForecaster
     from sktime.forecasting.model_selection import ForecastingGridSearchCV, SlidingWindowSplitter
     from sktime.performance_metrics.forecasting import MeanAbsolutePercentageError
-    y = mk_y(c["y"], 0)
+    y = mk_y(c["y"], c.get("origin", 0))
     cv = {"ok": SlidingWindowSplitter(fh=[1], window_length=3), "nosww": SlidingWindowSplitter(fh=[1], window_length=3, start_with_window=False),
           "notcv": "kfold"}[c["cv"]]
     scoring = {"none": None, "ok": MeanAbsolutePercentageError(), "notcallable": 3}[c["scoring"]]
@@ -235,7 +241,7 @@ def ep_reduce(c):
     from sklearn.linear_model import LinearRegression
     from sktime.forecasting.compose import make_reduction
     box = {}
-    y = mk_y(c["y"], 0)
+    y = mk_y(c["y"], c.get("origin", 0))
 
     def run():
         box["f"] = make_reduction(LinearRegression(), strategy=c["strategy"], window_length=mk_int(c["wl"]), scitype=c["scitype"])
@@ -250,7 +256,7 @@ def ep_composite(c):
     from sktime.forecasting.compose import EnsembleForecaster, TransformedTargetForecaster, MultiplexForecaster, StackingForecaster
     from sktime.transformations.series.boxcox import LogTransformer
     from sktime.transformations.panel.reduce import Tabularizer
-    y = mk_y(c["y"], 0)
+    y = mk_y(c["y"], c.get("origin", 0))
     box = {}
     kind, shape = c["kind"], c["shape"]
 
